@@ -193,6 +193,15 @@ theorem std_aggPermInvariant (kinds : RelId → Std.LatKind) : AggPermInvariant 
   | min => show Std.evalAx .min l = Std.evalAx .min l'; simp only [Std.evalAx]; rw [Agg.aggMin_perm hmap]
   | max => show Std.evalAx .max l = Std.evalAx .max l'; simp only [Std.evalAx]; rw [Agg.aggMax_perm hmap]
   | not => show Std.evalAx .not l = Std.evalAx .not l'; simp [Std.evalAx, h.length_eq]
+  | argmin =>
+    show Std.evalAx .argmin l = Std.evalAx .argmin l'
+    simp only [Std.evalAx]
+    rw [Agg.aggMin_perm hmap]
+    cases Agg.aggMin (l'.map fun t => Std.intOf (t.headD .unit)) with
+    | none => rfl
+    | some m =>
+      simp only
+      rw [Agg.aggMin_perm (((h.filter _).map _))]
 
 #print axioms restart_agg
 #print axioms rerun_idempotent_agg
